@@ -71,6 +71,8 @@ pub struct TState {
     /// seeded short reads on jubako's reader-side streams (per mille), and their PRNG
     pub short_read_pm: u64,
     pub short_rng: Option<simcore::prng::Rng>,
+    /// environment faults (failing reads): PRNG (knob `env_fault_seed`)
+    pub env_rng: Option<simcore::prng::Rng>,
     /// simulated time: PRNG deciding which timed waits time out (knob `timeout_fire_pm`)
     pub time_rng: Option<simcore::prng::Rng>,
     /// output I/O fault points (C09 T pass): consulted at every output operation of the creators
@@ -147,6 +149,21 @@ impl verif_rt::Hooks for THooks {
         }
         fire
     }
+    fn fault(&self, site: &'static str) -> bool {
+        let mut st = self.st.lock().unwrap();
+        let pm = match site {
+            "file_read" => st.knobs.get("file_read_fail_pm").copied().unwrap_or(0),
+            _ => 0,
+        };
+        if pm == 0 {
+            return false;
+        }
+        let fire = st.env_rng.as_mut().map(|r| r.below(1000) < pm).unwrap_or(false);
+        if fire {
+            *st.counts.entry("fault:file-read-EIO").or_insert(0) += 1;
+        }
+        fire
+    }
     fn io(&self, op: &verif_rt::io::IoOp) -> verif_rt::io::IoDecision {
         let mut st = self.st.lock().unwrap();
         match st.io_handler.as_mut() {
@@ -184,6 +201,7 @@ impl THooks {
         st.next_instance = 0;
         st.record_events = record_events;
         st.io_handler = None;
+        st.env_rng = Some(simcore::prng::Rng::derive(st.knobs.get("env_fault_seed").copied().unwrap_or(0), "env-faults", 0));
         st.time_rng = Some(simcore::prng::Rng::derive(st.knobs.get("timeout_seed").copied().unwrap_or(0), "timed-waits", 0));
         // the pseudo-knob "stream_short_read_pm" switches reader-side short reads on
         st.short_read_pm = st.knobs.get("stream_short_read_pm").copied().unwrap_or(0);
